@@ -87,6 +87,20 @@ def install_schedule_hook(spec):
     so that the n-th exists() on the data cache file is followed by the other process's remove."""
     kind, nth = spec.split(":")
     nth = int(nth)
+    if kind == "mkdir-lost-race":
+        # the n-th creation of the cache folder itself loses the race: another process creates it first
+        real_mkdir = os.mkdir
+        target = os.path.realpath(os.environ["SPSDK_CACHE_FOLDER"])
+        seen = {"n": 0}
+
+        def mkdir(path, *a, **k):
+            if os.path.realpath(os.fspath(path)) == target:
+                seen["n"] += 1
+                if seen["n"] == nth:
+                    real_mkdir(path, *a, **k)      # the other process' mkdir happens first
+            return real_mkdir(path, *a, **k)
+        os.mkdir = mkdir
+        return
     real_exists = os.path.exists
     count = {"n": 0}
 
